@@ -479,6 +479,9 @@ def rule_convert_args(ctx, py, R="C06.ARGS"):
 
 
 def run(ctx):
+    # package-wide disciplines first: they need no anchor, and what they find stands whatever the rules below can analyse
+    from .. import lints
+    lints.run(ctx, "C06", ctx.py, ["units"])
     py = ctx.py
     rule_si(ctx, py)
     vol, con = rule_derived(ctx, py)
@@ -492,6 +495,4 @@ def run(ctx):
     from ..core import borrow
     from . import c18
     borrow(ctx, "C06", c18.rule_expsum, py)
-    from .. import lints
-    lints.run(ctx, "C06", ctx.py, ["units"])
     ctx.assume("the 1e-12 composition bound is not measured; it follows from the product-of-ratios form (C06.KEYS)")
